@@ -47,7 +47,8 @@ prop('C04', ['T5', 'N1', 'N2', 'F8', 'M4', 'K4'],
      'engine, the Python registry literal and accessor.py (T5); flatten-with-path, PathsImpl, '
      'AccessorsImpl, Entries and Entry use the same entry per kind (index / key from the list that '
      'orders the children / node_entries[i]) and AccessorsImpl types each entry with the parent\'s '
-     'type and kind (N1); entry classes hash a subset of what they compare (F8); node copies keep '
+     'type and kind (N1); the backwards walkers advance by the node count the recursive call '
+     'returned (N2); entry classes hash a subset of what they compare (F8); node copies keep '
      'node_entries (M4); the backwards walkers reverse their result (K4).',
      ['accessor(tree) is the leaf', 'prefix-freeness of paths', 'codify/eval agreement'])
 
@@ -58,11 +59,13 @@ prop('C05', ['F1', 'F2', 'F3', 'F4', 'W2', 'K3', 'M7'],
      'eager list comprehension in a statement that dominates the first possible call of func - the '
      '"ValueError before f is called at all" clause (F3); the map object is consumed exactly once '
      'and func is used nowhere else (F4); traverse/walk call f_leaf in the leaf arm in traversal '
-     'order and f_node once per node after its children were popped (W2).',
+     'order and f_node once per node after its children were popped (W2); flatten_up_to uses the '
+     'same kind arms and key pipeline as flatten (K3, M7).',
      ['argument identity', 'functor laws'])
 
 prop('C06', ['H1', 'H4', 'H2', 'H3'],
      'Equality and hash: every value that feeds HashCombine is compared strictly by EqualTo (H1); '
+     'Python objects enter the hash through their Python hash, never their address (H4); '
      'EqualTo strictly compares size, none_is_leaf and per node kind / arity / registration / '
      'metadata and reads neither original_keys nor node_entries (H2); the six operators and their '
      'bindings map to the right relation and strictness (H3).',
@@ -72,7 +75,9 @@ prop('C07', ['P1', 'P2cxx', 'P2py', 'P3', 'P4', 'W1', 'H3', 'K3', 'M7'],
      'Prefix matching: per kind, the attributes compared by IsPrefix, FlattenUpTo, the broadcast '
      'walker and prefix_errors equal the reference table of the property statement (P1); '
      'structural mismatch raises ValueError only, prefix_errors constructs only ValueError, sorts '
-     'no keys with the builtin order and asserts nothing about user trees (P2); the re-ordering '
+     'no keys with the builtin order and asserts nothing about user trees (P2); strictness is '
+     'exactly "some leaf of the prefix meets a non-leaf" (P3); dict children are paired by key, '
+     'never by position (P4); the kind arms and key pipeline are those of flatten (K3, M7); the re-ordering '
      'branch of IsPrefix does not address the original node array with positions of the permuted '
      'working copy (W1); <, <=, >, >=, is_suffix are wired as converses (H3).',
      ['exactness over all pairs', 'offset arithmetic of the re-ordering branch'])
@@ -80,14 +85,17 @@ prop('C07', ['P1', 'P2cxx', 'P2py', 'P3', 'P4', 'W1', 'H3', 'K3', 'M7'],
 prop('C08', ['I3', 'M5', 'M5b', 'M6', 'F9', 'T6', 'K1'],
      'Inspection / constructors: entry(i)/child(i) range test and normalisation dominate all uses '
      'of the index (I3); every new treespec gets none_is_leaf and namespace from its source(s) and '
-     'passes the sanity check before it escapes (M5, 14 creation sites); children() and child() '
+     'passes the sanity check before it escapes (M5, 14 creation sites); a treespec derived from '
+     'two treespecs merges both namespaces (M5b); children() and child() '
      'slice with the same expressions (M6); each treespec_<kind> builds the container its name '
      'says (F9); the Python predicates use the engine\'s formulas (T6); K1.',
      ['count identities', 'transform/compose algebra', 'repr text'])
 
 prop('C09', ['M4', 'M5b', 'P1', 'P4', 'K4', 'F1', 'F2'],
      'Broadcasting, structural part: the merge walker copies every payload field of a node (M4); '
-     'its kind x kind compatibility equals the prefix matchers\' (P1); it walks backwards with '
+     'the result namespace comes from both operands (M5b); '
+     'its kind x kind compatibility equals the prefix matchers\' (P1) and dict children are paired '
+     'by key (P4); it walks backwards with '
      'descending loops and one final reverse (K4); the Python layer forwards options and uses the '
      'map normal form (F1, F2).',
      ['least upper bound', 'symmetry', 'idempotence'])
@@ -96,7 +104,8 @@ prop('C10', ['F6', 'F2', 'F1'],
      'Transposition, structural part: the four documented rejections dominate the regrouping; '
      'chunk width = stride = inner_size over m*n leaves; zip(*) swaps the dimensions and '
      'outer.unflatten / inner.unflatten consume the right side (F6); the with_path / with_accessor '
-     'variants differ only by the extra first iterable (F2); options forwarded (F1).',
+     'variants differ only by the extra first iterable (F2); the namespace guard reads both '
+     'treespecs (F6 namespace-of-both); options forwarded (F1).',
      ['involution law', 'value placement for all shapes'])
 
 prop('C11', ['S1', 'S2', 'S3', 'K2'],
@@ -135,7 +144,7 @@ prop('C15', ['E1', 'E2', 'E3', 'E4', 'E5', 'E6', 'K7', 'I2', 'A5'],
      'user code between allocation and fill of a tuple/list (E4); only the TypeError fallbacks of '
      'the key sort swallow (E5); only documented exception types are thrown (E6); malformed custom '
      'results raise RuntimeError (K7); no error-swallowing lookup on user dicts (I2); a failing '
-     'call leaves its operands untouched (A5).',
+     'call leaves its operands untouched (A5). Thorough tier: X1 across 4 CPython configurations.',
      ['reference-count equality after a fault at every k'], thorough_rules=['X1'])
 
 prop('C16', ['K8', 'K9', 'K9py', 'K7', 'I1', 'I2', 'I3', 'S3'],
@@ -144,7 +153,8 @@ prop('C16', ['K8', 'K9', 'K9py', 'K7', 'I1', 'I2', 'I3', 'S3'],
      'MAX_RECURSION_DEPTH (K9) and Python-level recursion over tree depth is enumerated (K9py); no '
      'unchecked index into a list the user can shrink while user code runs in the loop (I1); '
      'nullable C-API results are tested (I2); index guards (I3); unpickling validates what '
-     'unchecked reads rely on (S3).',
+     'unchecked reads rely on (S3); malformed custom flatten results are rejected before use (K7). '
+     'Thorough tier: the #if arms of the accessor wrappers agree across 4 CPython configurations (X1).',
      ['absence of all undefined behaviour'], thorough_rules=['X1'])
 
 prop('C17', ['L1', 'L2', 'L3', 'L4', 'L5', 'T3', 'T3b'],
@@ -153,12 +163,13 @@ prop('C17', ['L1', 'L2', 'L3', 'L4', 'L5', 'T3', 'T3b'],
      'shared engine state is inside a region of its mutex in the right mode (L3); registry '
      'check-then-act is atomic and Lookup returns by value (L4); the iterator keeps no reference '
      'into its agenda across user code (L5); cache insertion is capped and paired with eviction '
-     '(T3).',
+     '(T3); every address-keyed memo of a recogniser is reset by the eviction callback (T3b).',
      ['linearizability over schedules'])
 
 prop('C18', ['T1', 'T2', 'T3', 'T3b', 'T4', 'T5', 'T6', 'K7py', 'K6py'],
      'Twins: both recognisers test the same atoms (T1); the key sort twin has the same stages and '
-     'last resort (T2); cached answers are evicted with the class (T3); one-level handlers (T4), '
+     'last resort (T2); cached answers and address-keyed memos are evicted with the class (T3, '
+     'T3b); one-level handlers (T4), '
      'path entry classes (T5), treespec predicates (T6), flatten-result validation (K7py) and '
      'lookup order (K6py) agree with the engine.',
      ['agreement over all inputs and cache histories'])
@@ -173,5 +184,7 @@ prop('C19', ['DC1', 'DC2', 'DC3', 'DC4', 'DC5', 'G4', 'F8'],
 prop('C20', ['R1', 'R2', 'R3', 'R4', 'F1'],
      'Ravel: each partial binds exactly the leading parameters of its target (R1); shape guard and '
      '(mixed-dtype) dtype guard dominate the split, chunks/shapes/dtypes are joined by the strict '
-     'zip (R2); the three backends have the same structure (R3); options forwarded (F1).',
+     'zip (R2); the three backends have the same structure (R3); the numpy common dtype is '
+     'computed by the n-ary result_type, not a pairwise fold of the non-associative '
+     'promote_types (R4); options forwarded (F1).',
      ['numerical inverse law', 'dtype promotion', 'offset arithmetic'])
